@@ -6,7 +6,8 @@
    Statements named `_hist_...` / `..._legacy_refuted` (refuted / partial for drain = false or fix flags
    false) describe those historical trees and are kept so that a regression of a repair has a proved
    description; everything else describes /repo as it stands or any cfg.  One statement about /repo
-   today is refuted: `C15_free_right_refuted` (known finding free-sum-right-of-combined). *)
+   today is refuted: `C15_free_right_refuted` (known finding free-sum-right-of-combined; the proposed
+   repair is the flag fix_free_right, `C15_flatten_all_repaired` is the positive theorem for it). *)
 From Coq Require Import ZArith List Bool Arith.
 From PAFC15 Require Import Model Proofs1 Proofs2 Proofs3 Witness.
 Import ListNotations.
@@ -44,16 +45,22 @@ Theorem C15_single_plus_free_raises : forall (c : cfg) (j : nat) (h : bool) (e :
   eval c (Add (Leaf j h) (Free e)) = VErr.
 Proof. exact single_plus_free_raises. Qed.
 
-(* ... but (a + b) + (c + d).with_free_parameters(p) is accepted silently (known finding, no repair flag) *)
+(* ... but (a + b) + (c + d).with_free_parameters(p) is accepted silently by /repo today (known finding) *)
 Theorem C15_free_right_refuted : exists e : expr, eval cfg_now e <> spec_struct e.
 Proof. exact free_right_refuted. Qed.
 
+(* with the proposed repair (combined + free-parameter sum raises too) the structure is the specified
+   one for EVERY expression, with_free_parameters anywhere: kept switched off (cfg_fixed, not cfg_now) *)
+Theorem C15_flatten_all_repaired : forall (c : cfg) (e : expr),
+  fix_order c = true -> fix_new c = true -> fix_free_right c = true -> eval c e = spec_struct e.
+Proof. exact flatten_all. Qed.
+
 Theorem C15_hist_flatten_order_refuted :
-  exists e : expr, nofree e = true /\ eval (mkCfg false true true true true true) e <> spec_struct e.
+  exists e : expr, nofree e = true /\ eval (mkCfg false true true true true true true) e <> spec_struct e.
 Proof. exact flatten_order_refuted. Qed.
 
 Theorem C15_hist_flatten_models_refuted :
-  exists e : expr, nofree e = true /\ eval (mkCfg true false true true true true) e <> spec_struct e.
+  exists e : expr, nofree e = true /\ eval (mkCfg true false true true true true true) e <> spec_struct e.
 Proof. exact flatten_models_refuted. Qed.
 
 Theorem C15_member_i : forall (k : ckind) (l : list (nat * bool)) (i j : nat) (h : bool),
